@@ -167,6 +167,20 @@ CONSTRAINED = [
 ]
 
 
+def nested(depth, broken=False, where='head'):
+    """a constraints section with `depth` nested parentheses, the inner group first / last / alone in its
+    parenthesis (reading time must stay proportional to the text)"""
+    inner = 'r1.size <4'
+    for k in range(depth):
+        op = '&&' if k % 2 else '||'
+        inner = ('( %s %s r1 is cyclic )' % (inner, op) if where == 'head' else
+                 '( r1 is cyclic %s %s )' % (op, inner) if where == 'tail' else '( %s )' % inner)
+    if broken:
+        inner = inner[:-1]
+    return ("rule n%d{ reactant r1{ C labeled c1 H labeled h1 single bond to c1 } constraints{ %s } "
+            "break bond(c1,h1) increase number of radical (c1) increase number of radical (h1) }" % (depth, inner))
+
+
 def build_corpus(rng_, thorough):
     base = []
     nfrag, nrule = (600, 300) if thorough else (110, 60)
@@ -183,6 +197,9 @@ def build_corpus(rng_, thorough):
         corpus.append(t)
         corpus += [t[:k] for k in range(len(t))] if thorough else [t[:k] for k in range(0, len(t), 2)]
         corpus += rg.mutants(rng_, t, per_kind=None if thorough else 8)
+    for depth in (2, 6, 14, 22, 30):
+        for where in ('head', 'tail', 'alone'):
+            corpus += [nested(depth, where=where), nested(depth, broken=True, where=where)]
     # a carriage return is not filler: alone, before a line feed, at the very end
     for t in base[::(3 if thorough else 9)]:
         toks = t.split(' ')
